@@ -294,6 +294,12 @@ func (r *Runner) withClock(f func(now0 time.Time) string) string {
 }
 
 func isInt(s string) bool { _, err := strconv.ParseInt(s, 10, 64); return err == nil }
+
+// isCutoff: a cutoff must lie before 2023-11-14 (before the wall clock of any run and the model's clock).
+func isCutoff(s string) bool {
+	v, err := strconv.ParseInt(s, 10, 64)
+	return err == nil && v <= 1700000000000000000
+}
 func isUint(s string) bool {
 	_, err := strconv.ParseUint(s, 10, 63)
 	return err == nil && !strings.HasPrefix(s, "+")
@@ -329,7 +335,7 @@ func wellFormed(t []string) bool {
 	case "csg", "find", "sgd":
 		return len(t) == 4 && isInt(t[3])
 	case "ms":
-		return len(t) == 5 && (t[3] == "-" || isInt(t[3])) && isList(t[4], isInt)
+		return len(t) == 5 && (t[3] == "-" || isCutoff(t[3])) && isList(t[4], isInt)
 	case "dump":
 		return len(t) == 3
 	case "restart":
@@ -347,7 +353,7 @@ func wellFormed(t []string) bool {
 	case "dc":
 		return len(t) == 2 && isList(t[1], func(e string) bool {
 			p := strings.Split(e, ":")
-			return len(p) == 3 && isInt(p[2])
+			return len(p) == 3 && isCutoff(p[2])
 		})
 	case "setdel":
 		return len(t) == 5 && isUint(t[3]) && isInt(t[4])
